@@ -29,6 +29,51 @@ def part_alias(R: Run):
     A.guard("sharing of CRS instances", lambda: sharing(R, E))
     A.guard("CRS.authority and the lazy EPSG field", lambda: authority(R, E))
     A.guard("NaN clean-up of the transformer wrapper", lambda: nan_wrapper(R))
+    A.guard("CRS.units / CRS.dimensions", lambda: units_dims(R))
+    A.guard("hashable CRS-like objects as cache keys", lambda: like_cache(R, E))
+
+
+def _hash(o):
+    try:
+        return hash(o)
+    except TypeError:
+        return None
+
+
+class _CrsOnly:
+    """a value without == of its own (GCPMapping): the CRS it holds decides; dask tokens / pickles are the value's"""
+
+    def __init__(self, o):
+        self.o = o
+
+    crs = property(lambda self: self.o.crs)
+
+    def __eq__(self, other):
+        return isinstance(other, _CrsOnly) and (self.o.crs == other.o.crs or (self.o.crs is None and other.o.crs is None))
+
+    __hash__ = None
+
+    def __copy__(self):
+        return _CrsOnly(copy.copy(self.o))
+
+    def __dask_tokenize__(self):
+        from dask.base import tokenize
+
+        return ("holder", tokenize(self.o))
+
+
+class _ViaBase(_CrsOnly):
+    """GeoboxTiles: holds the instance through its base GeoBox; == is its own"""
+
+    crs = property(lambda self: self.o.base.crs)
+
+    def __eq__(self, other):
+        return isinstance(other, _ViaBase) and bool(self.o == other.o)
+
+    __hash__ = None
+
+    def __copy__(self):
+        return _ViaBase(copy.copy(self.o))
 
 
 # ----------------------------------------------------------------------------------------------------------------
@@ -52,9 +97,28 @@ def sharing(R: Run, E):
     fixed = [[("n", 0, LOSSY_4326), ("c", 2, 0), ("n", 1, "EPSG:4326"), ("h", 1, 0), ("h", 2, 2), ("h", 3, 1),
               ("e", 1, 3), ("e", 2, 3), ("e", 1, 2), ("r", 0), ("e", 1, 3), ("e", 2, 3), ("e", 1, 2)]]
     nh = R.pick(14, 120)
-    for hno in range(nh + len(fixed)):
-        kind = "bbox" if hno % 2 == 0 else "gbox"
-        mk_holder = (lambda c: BoundingBox(0, 1, 2, 3, crs=c)) if kind == "bbox" else (lambda c: GeoBox((3, 4), A0, c))
+    import numpy as np
+
+    from odc.geo import geom as geom_
+    from odc.geo.gcp import GCPMapping
+    from odc.geo.geobox import GeoboxTiles
+    from odc.geo.gridspec import GridSpec
+
+    pix_ = np.array([(0, 0), (4, 0), (0, 3), (4, 3)], dtype="float64")
+    makers = {
+        "bbox": lambda c: BoundingBox(0, 1, 2, 3, crs=c),
+        "gbox": lambda c: GeoBox((3, 4), A0, c),
+        "geom": lambda c: geom_.point(1.0, 2.0, c),
+        "gridspec": lambda c: GridSpec(c, (10, 10), 8),
+        "gcpmap": lambda c: _CrsOnly(GCPMapping(pix_, pix_ * 2 + 10, c)),
+        "gbt": lambda c: _ViaBase(GeoboxTiles(GeoBox((10, 10), A0, c), (5, 5))),
+    }
+    more_kinds = ["geom", "gridspec", "gcpmap", "gbt"]
+    n_more = R.pick(4, 40)
+    for hno in range(nh + len(fixed) + n_more):
+        base_n = nh + len(fixed)
+        kind = ("bbox" if hno % 2 == 0 else "gbox") if hno < base_n else more_kinds[(hno - base_n) % len(more_kinds)]
+        mk_holder = makers[kind]
         texts = rng.sample(TEXTS, 4) if hno >= len(fixed) else TEXTS
         inst: dict = {}      # instance id -> CRS object; ids are never reused (a value keeps the OBJECT it was given,
         var: dict = {}       # whatever a variable name is bound to later); variable name -> current instance id
@@ -81,7 +145,8 @@ def sharing(R: Run, E):
                 elif r < 0.36:
                     op = ("p", rng.randint(0, 4), rng.choice(sorted(var)))
                 elif r < 0.56 or len(hold) < 2:
-                    op = ("h", rng.randint(0, 5), rng.choice(sorted(var))) if rng.random() < 0.9 else ("hn", rng.randint(0, 5))
+                    op = ("h", rng.randint(0, 5), rng.choice(sorted(var))) if (rng.random() < 0.9 or kind == "gridspec") \
+                        else ("hn", rng.randint(0, 5))
                 elif r < 0.64:
                     op = ("rh", rng.randint(0, 5), rng.choice(sorted(hold)))
                 elif r < 0.80:
@@ -132,7 +197,7 @@ def sharing(R: Run, E):
             elif t == "rh":
                 src = hold[op[2]]
                 how = rng.randrange(3)
-                if how == 0:
+                if how == 0 or kind not in ("bbox", "gbox"):
                     new = copy.copy(src)
                 elif kind == "bbox":
                     new = BoundingBox(*src.bbox, crs=src.crs)
@@ -152,7 +217,7 @@ def sharing(R: Run, E):
             elif t == "r":
                 names = sorted(hold)
                 before = {(a, b): bool(hold[a] == hold[b]) for a in names for b in names}
-                hb = {a: (hash(hold[a]), tokenize(hold[a])) for a in names}
+                hb = {a: (_hash(hold[a]), tokenize(hold[a])) for a in names}
                 holders_of = [a for a in names if ref[a] == op[1] and hold[a].crs is inst[op[1]]]
                 # read through a holder when there is one: it is the same instance
                 target = hold[rng.choice(holders_of)].crs if holders_of and rng.random() < 0.5 else inst[op[1]]
@@ -161,7 +226,7 @@ def sharing(R: Run, E):
                 outs.append("e:" + ("N" if e is None else str(e)))
                 case = {"kind": kind, "ops": list(ops_l), "texts": {str(i): str(c)[:60] for i, c in inst.items()}}
                 for a in names:
-                    R.oracle(hash(hold[a]) == hb[a][0], "holder-hash-changes-after-epsg-read", {**case, "holder": a},
+                    R.oracle(_hash(hold[a]) == hb[a][0], "holder-hash-changes-after-epsg-read", {**case, "holder": a},
                              f"hash of a {kind} changed when .epsg of a CRS was read")
                     R.oracle(tokenize(hold[a]) == hb[a][1], "holder-token-changes-after-epsg-read", {**case, "holder": a},
                              f"dask token of a {kind} changed when .epsg of a CRS was read")
@@ -181,7 +246,7 @@ def sharing(R: Run, E):
                 ops_l.append(f"e;{a};{b}")
                 outs.append(bool_s(r_))
                 if ref[a] is not None and ref[a] == ref[b] and hold[a].crs is hold[b].crs:
-                    R.oracle(r_ and hash(hold[a]) == hash(hold[b]), "shared-crs-holders-unequal",
+                    R.oracle(r_ and _hash(hold[a]) == _hash(hold[b]), "shared-crs-holders-unequal",
                              {"kind": kind, "ops": list(ops_l)}, "two values holding the SAME CRS instance are unequal / hash apart")
         A.corr(R, "c19 alias run " + list_s(ops_l), lambda outs=outs: ",".join(outs),
                sig=f"alias|history|{kind}|" + ("witness" if script else "random"))
@@ -295,3 +360,117 @@ def nan_wrapper(R: Run):
         else:
             A.corr(R, f"c19 alias nan S {enc(xs_)} {enc(ys_)}", lambda ox=ox, oy=oy: f"S {enc(ox)} {enc(oy)}",
                    sig="alias|nan-clean|scalars")
+
+
+# ----------------------------------------------------------------------------------------------------------------
+def units_dims(R: Run):
+    """CRS.units / CRS.dimensions against the model's dispatch over pyproj's axis_info (Model/C19Units.lean); the
+    polar systems (both axes pointing the same way) are the ones the fix on main is about"""
+    from odc.geo.crs import CRS
+
+    from .common import guarded
+
+    codes = [4326, 3857, 32755, 32633, 3577, 2193, 27700, 3031, 3413, 32661, 32761, 5041, 5042, 3995, 3976, 3032, 4978, 4979,
+             2154, 28355, 3112, 7844, 4269, 3035, 2056, 31370, 5514, 2065, 22275, 3346]
+    enc = lambda t: str(t).replace(" ", "_").replace(",", ".").replace(";", ".") or "-"  # noqa: E731
+    specs = [f"EPSG:{c}" for c in codes] + ["ESRI:54009", "+proj=stere +lat_0=90 +lat_ts=70 +lon_0=-45 +units=us-ft +no_defs",
+                                            "+proj=laea +lat_0=-90 +lon_0=0 +units=km +no_defs"]
+    for spec in specs:
+        try:
+            c = CRS(spec)
+        except Exception:  # pylint: disable=broad-except
+            continue
+        p = A.pyproj_of(c)
+        kind = "G" if c.geographic else ("P" if c.projected else "O")
+        axes = [(enc(ax.direction), enc(ax.abbrev), enc(ax.unit_name)) for ax in p.axis_info]
+
+        def f(c=c):
+            y, x = c.units
+            return f"{enc(y) if y != '' else ''}~{enc(x) if x != '' else ''}"
+        A.corr(R, f"c19 units {kind} {list_s(';'.join(a) for a in axes)}", lambda f=f: guarded(f),
+               sig=f"units|{kind}|axes={len(axes)}|dirs={'+'.join(sorted({a[0] for a in axes}))}")
+        A.corr(R, f"c19 dims {kind}", lambda c=c: guarded(lambda: "~".join(c.dimensions)), sig=f"dims|{kind}")
+        if kind == "P" and len(axes) >= 2:
+            try:
+                y, x = c.units
+            except Exception as e:  # pylint: disable=broad-except
+                R.oracle(False, "crs-units-raises", {"spec": spec}, f"CRS({spec!r}).units raised {e!r}")
+                continue
+            names = [ax.unit_name for ax in p.axis_info]
+            ok = y != "" and x != "" and any(names[i] == y and names[j] == x for i in range(len(names))
+                                             for j in range(len(names)) if i != j)
+            R.oracle(ok, "crs-units-not-of-two-axes", {"spec": spec, "units": [y, x], "axes": axes},
+                     f"CRS({spec!r}).units is {(y, x)}: not the units of two different axes {names}")
+
+
+# ----------------------------------------------------------------------------------------------------------------
+def like_cache(R: Run, E):
+    """CRS(obj) for hashable CRS-like objects (Model/C19Like.lean): the same object again gives the same pyproj object
+    (a cache hit under the object's own key), another object with the same WKT a different one, all equal as CRSs.
+    Observable relations only; the growth of the cache is compared softly (internal state)."""
+    import pyproj
+
+    import odc.geo.crs as C
+    from odc.geo.crs import CRS
+
+    W = E.W
+    wkts = [pyproj.CRS.from_epsg(c).to_wkt() for c in (3577, 3112)]
+    names = [W.add_text(w) for w in wkts]
+    ents = []
+    for n in names:
+        d = W.info[n]
+        ents.append(f"{n};{d['sys']};{d['srs']};{d['wkt']};{'N' if d['epsg'] is None else d['epsg']}")
+    ts = list_s(ents)
+
+    class Like:   # hashable by identity, not a pyproj CRS
+        def __init__(self, wkt):
+            self._w = wkt
+
+        def to_wkt(self, *a, **kw):
+            return self._w
+
+    class Broken(Like):
+        def to_wkt(self, *a, **kw):
+            return "not-wkt"
+
+    for _ in range(R.pick(4, 30)):
+        objs = {}     # lid -> (object, name of its wkt)
+        made = {}
+        ops, outs = [], []
+        before = A.crs_cache_len(C)
+        nv = 0
+        for _k in range(R.pick(14, 24)):
+            r = R.rng.random()
+            if r < 0.5 or len(made) < 2:
+                lid = R.rng.randint(0, 4)
+                if lid not in objs:
+                    k = R.rng.randrange(2)
+                    objs[lid] = (Broken("x"), "not-wkt") if R.rng.random() < 0.1 else (Like(wkts[k]), names[k])
+                try:
+                    c = CRS(objs[lid][0])
+                    made[nv] = c
+                    outs.append("s:" + W.name(str(c)))
+                except Exception as e:  # pylint: disable=broad-except
+                    from .common import err_s
+                    outs.append(err_s(e))
+                ops.append(f"l;{nv};{lid};{objs[lid][1]};{R.rng.randint(0, 2)}")
+                nv += 1
+            else:
+                a, b = R.rng.choice(sorted(made)), R.rng.choice(sorted(made))
+                if r < 0.8:
+                    ops.append(f"same;{a};{b}")
+                    outs.append(bool_s(A.pyproj_of(made[a]) is A.pyproj_of(made[b])))
+                else:
+                    ops.append(f"eq;{a};{b}")
+                    outs.append(bool_s(made[a] == made[b]))
+                    R.oracle(bool(made[a] == made[b]) == (str(made[a]) == str(made[b])), "crs-like-objects-unequal",
+                             {"ops": list(ops)}, "CRSs built from CRS-like objects with the same WKT are unequal", trivial=True)
+        after = A.crs_cache_len(C)
+        good = len({lid for op in ops if op.startswith("l;") for lid in [op.split(";")[2]] if objs[int(lid)][1] != "not-wkt"})
+        grew = None if before is None or after is None else after - before
+        if grew is not None and grew != good:
+            A.note(f"CRS construction cache grew by {grew} entries for {good} distinct CRS-like objects (internal state; "
+                   "not a verdict)")
+        R.count("like-cache-growth-agrees", int(grew == good))
+        A.corr(R, f"c19 like {ts} {list_s(ops)}", lambda outs=outs, good=good: ",".join(outs) + f" likes={good}",
+               sig="like|history")
